@@ -12,6 +12,7 @@ import json
 import os
 import random
 
+from . import mine
 from .pairing import AUDIT, default_codes
 from .render import Prober
 from .tlc import run_tlc, VAL_CFG
@@ -84,9 +85,11 @@ def run(ctx):
     pr = Prober(rnd)
     pairs = [(t['base'], t['twin']) for t in conf['twins'] if t['base'] in handlers]
     ncmp = 0
+    nplanted = 0
     for base, twin in pairs:
+        name_for_words = twin if twin in AUDIT else base
+        vecs = []
         for k in range(60 if ctx.quick else 240):
-            name_for_words = twin if twin in AUDIT else base
             S = pr.distinct_words(name_for_words, 'start')
             E = pr.distinct_words(name_for_words, 'end')
             if k % 2 == 0:
@@ -96,6 +99,17 @@ def run(ctx):
                 j = k % 4
                 if AUDIT[name_for_words]['dom'][j] is None:
                     S[j] = BOUNDARY[(k // 4 + j) % len(BOUNDARY)]
+            vecs.append((S, E, k))
+        # constants the twin's / base's own code mentions (mined from the working tree): alone, tuples at every offset,
+        # pairs and triples, START and END words (error word included) - a special case must serve both names alike
+        if name_for_words in AUDIT:
+            ok = mine.audit_allowed(AUDIT[name_for_words])
+            basef = lambda: pr.distinct_words(name_for_words, 'start') + pr.distinct_words(name_for_words, 'end')      # noqa
+            for nm in (base, twin):
+                for vec, pl in mine.plant_vectors(nm, basef, ok, rnd, budget=60 if ctx.quick else 400):
+                    nplanted += 1
+                    vecs.append((list(vec[:4]), list(vec[4:]), nplanted))
+        for S, E, k in vecs:
             paths = [b'/tw%d' % i for i in range(k % 3)]
 
             def rend(n):
@@ -124,7 +138,7 @@ def run(ctx):
                 break
     ctx.sample({'twin_pairs': pairs[:5], 'counts (names, table names, twins, functions)': counts[0][1:]})
     ctx.extra['code'] = {'decoder_names': counts[0][1], 'table_names': counts[0][2], 'twin_pairs': len(pairs),
-                         'twin_renderings_compared': ncmp, 'decoder_functions': counts[0][4]}
+                         'twin_renderings_compared': ncmp, 'of_which_planted': nplanted, 'decoder_functions': counts[0][4]}
     ctx.assumptions += ['a decoder function counts as registered if it is a value of a handlers dictionary (partial '
                         'unwrapped) or is called by / bound into another function of its module']
 
